@@ -3,6 +3,7 @@ import ObiVerif.Model.WriterFmt
 import ObiVerif.Model.CsvRead
 import ObiVerif.Model.JsonRead
 import ObiVerif.Model.WriterWfile
+import ObiVerif.Model.WriterPeek
 import ObiVerif.Driver.Util
 /-! line protocol for C04 (see `harness/c04.go`):
 
@@ -23,7 +24,14 @@ calls the output received; the model runs the writers at the level of `Wfile` (`
 re-sequencing → `bufio.Writer` of 4096 bytes → recording file), `out=` is the concatenation of these calls
 (= `writeFile`, theorem `Props.C04.file_calls_concat`).
 
-Old form (still accepted): `<writer> w=<workers> <order>:<nseq>:<hex text> …` — chunk texts as data. -/
+Old form (still accepted): `<writer> w=<workers> <order>:<nseq>:<hex text> …` — chunk texts as data.
+
+Glue cases (`harness/c04_glue.go`, `Model/WriterPeek.lean`):
+`glue <generator tokens…> | sh=<shift> se=<0|1> fo=<auto|fasta|fastq|json|a+b…> to=<sink|stdout|file> p=<0|1> C <batch>… [P <batch>…]`:
+the batches in the order the iterator handed to `WriteSequence` / `CLIWriteBioSequences` delivers them (`P`: the batches
+of the mates in the order the second writer's iterator delivers them); the model runs `WriterPeek.cliWrite` (peek +
+`PushBack`, format choice, one formatting worker, re-sequencing writer) and prints `closes=<0|1> out=<hex>[ out2=<hex>]`
+(`closes`, for `to=sink` only: whether a writer was started at all) or `fatal`. -/
 set_option Elab.async false
 namespace ObiVerif.Driver.C04
 open ObiVerif.Writer ObiVerif.Driver ObiVerif.WriterFmt ObiVerif.WriterWfile
@@ -181,8 +189,40 @@ def runNew (w : String) (gen : List String) (model : List String) : String :=
     | _, _ => "fatal"
   | _, _, _ => "bad-op"
 
+/-- the glue cases: `WriteSequence` / `CLIWriteBioSequences` on the batch model -/
+def runGlue (model : List String) : String :=
+  let opts := model.takeWhile (· ≠ "C")
+  let afterC := (model.dropWhile (· ≠ "C")).drop 1
+  let chunks := afterC.takeWhile (· ≠ "P")
+  let mates := (afterC.dropWhile (· ≠ "P")).drop 1
+  -- `fo=auto` or the format options given on the command line, joined by `+` (`CLIOutputFormat` decides)
+  let fmt : Option (Option Kind) := match kv opts "fo" with
+    | some "auto" => some none
+    | some f =>
+      let fl := f.splitOn "+"
+      if fl.all (fun x => x = "fasta" || x = "fastq" || x = "json") then
+        some (WriterPeek.outputFormat (fl.contains "fastq") (fl.contains "fasta") (fl.contains "json"))
+      else none
+    | none => none
+  match (kv opts "sh").bind String.toNat?, kv opts "se", fmt, kv opts "to", kv opts "p", chunks.mapM parseBatch,
+      mates.mapM parseBatch with
+  | some sh, some se, some format, some to, some p, some arr, some arr2 =>
+    let c : WriterPeek.Cli := { format := format, toFile := to = "file", paired := p = "1", skipEmpty := se = "1",
+                                shift := UInt8.ofNat sh }
+    let r := WriterPeek.cliWrite c (arr.map fun a => (a.1, a.2.map fun r => (r, r)))
+      (arr2.map fun a => (a.1, a.2.map fun r => (r, r)))
+      (WriterPeek.soloSched (arr.length + 1)) (WriterPeek.soloSched (arr2.length + 1))
+    let closes := if to != "sink" then "" else if format.isNone && arr.isEmpty then "closes=0 " else "closes=1 "
+    match r with
+    | (some out, none) => s!"{closes}out={hex out}"
+    | (some out, some (some out2)) => s!"{closes}out={hex out} out2={hex out2}"
+    | _ => "fatal"
+  | _, _, _, _, _, _, _ => "bad-op"
+
 def run (line : String) : String :=
   match words line with
+  | "glue" :: rest =>
+    if rest.contains "|" then runGlue ((rest.dropWhile (· ≠ "|")).drop 1) else "bad-op"
   | w :: rest =>
     if rest.contains "|" then runNew w (rest.takeWhile (· ≠ "|")) ((rest.dropWhile (· ≠ "|")).drop 1)
     else match rest with
